@@ -68,6 +68,7 @@ type VC struct {
 	counts  map[string]int
 	Inputs  []InputVar // symbolic inputs for replay (params etc.)
 	X       *Exec
+	Axioms  []*Term // user axioms (contract files); emitted only where relevant
 	PreN    int        // number of assumptions that make up the precondition
 }
 
